@@ -197,7 +197,8 @@ class C04(Monitor):
         acc.ev()
         rel = "a=S-ish" if a * 2 > S else ("a<<S" if a * (1 << 20) < S else "mid")
         acc.cls(p.kind(), st.res["r"], rel, "S" + bucket(S), "r" + bucket(max(r0, r1)),
-                "Svs_r:" + ("lt" if S < min(r0, r1) else ("gt" if S > max(r0, r1) else "mid")))
+                "Svs_r:" + ("lt" if S < min(r0, r1) else ("gt" if S > max(r0, r1) else "mid"))
+                + ("/S<<rmax" if (S << 20) < max(r0, r1) else "") + ("/S>>rmin" if S > (min(r0, r1) << 20) else ""))
         if not st.ok:
             acc.count("withdraw_failed")
             return
@@ -462,3 +463,392 @@ class C09(Monitor):
                 acc.count("mismatch_rejected")
             if not st.pre.same_as(st.post):
                 acc.violation("failed %s changed state" % entry, case_of(w, st))
+
+
+# ---------------------------------------------------------------------------
+# quotes, guards, router
+
+
+def sim_of(st, idx=0):
+    """decoded pair Simulation quote taken in the same state, or None / ('fail', text)"""
+    if len(st.quotes) <= idx:
+        return None
+    q = st.quotes[idx]
+    if q["r"] != "ok":
+        return ("fail", q.get("e", ""))
+    try:
+        return (int(q["v"]["return_amount"]), int(q["v"]["spread_amount"]), int(q["v"]["commission_amount"]))
+    except (KeyError, ValueError, TypeError):
+        return ("fail", "undecodable")
+
+
+def band_problems(x, y, a, c, n, spread, comm):
+    """C06 oracle on one (reserves, offer, rate) -> (n, spread, commission)."""
+    probs = []
+    s = x + a
+    if s == 0:
+        return probs
+    # g(1-c) - 1 < n < g(1-c) + 1   with g = y*a/s, c = c/D   (all scaled by s*D)
+    lhs = y * a * (D - c)
+    if not (lhs - s * D < n * s * D < lhs + s * D):
+        probs.append("return %d outside g(1-c)±1 (g=%d*%d/%d, c=%d/1e18)" % (n, y, a, s, c))
+    if comm != (c * (n + comm)) // D:
+        probs.append("commission %d != floor(c*(n+commission)) = %d" % (comm, (c * (n + comm)) // D))
+    if x > 0 and n + comm + spread != (a * y) // x:
+        probs.append("n+commission+spread = %d != floor(a*y/x) = %d" % (n + comm + spread, (a * y) // x))
+    return probs
+
+
+class C06(Monitor):
+    """system level: Simulation responses and swap attributes obey the constant-product band; commission stays in the pool."""
+
+    def on_step(self, st):
+        w, acc = self.w, self.acc
+        op = st.op
+        if op["kind"] != "swap" or not op["sem"].get("well_formed"):
+            return
+        sem = op["sem"]
+        p = sem["pair"]
+        i = p.idx(sem["named"])
+        r = p.reserves(st.pre)
+        x, y, a = r[i], r[1 - i], sem["named_amt"]
+        sim = sim_of(st)
+        if sim and sim[0] != "fail":
+            acc.ev()
+            acc.cls("sim", p.kind(), bucket(x), bucket(y), bucket(a), "c" + bucket(p.rate))
+            acc.count("sys_quotes_judged")
+            probs = band_problems(x, y, a, p.rate, *sim)
+            if probs:
+                acc.violation("Simulation on %s x=%d y=%d a=%d: %s" % (p.addr, x, y, a, "; ".join(probs)), case_of(w, st))
+        if st.ok:
+            evs = [e for e in attr_events(st.res) if e.get("action") == "swap" and e.get("_contract_addr") == p.addr]
+            if len(evs) == 1:
+                acc.ev()
+                acc.count("sys_swaps_judged")
+                e = evs[0]
+                n, sp, cm = int(e["return_amount"]), int(e["spread_amount"]), int(e["commission_amount"])
+                probs = band_problems(x, y, a, p.rate, n, sp, cm)
+                other = p.other(sem["named"])
+                dpair = st.post.get(p.addr, other[1]) - st.pre.get(p.addr, other[1])
+                rcv = sem["to"] or op["actor"]
+                if rcv != p.addr and dpair != -n:
+                    probs.append("ask reserve changed by %d, not by -return (%d): commission did not stay in the pool" % (dpair, n))
+                acc.cls("exec", p.kind(), sem["entry"], bucket(x), bucket(a))
+                if probs:
+                    acc.violation("swap on %s x=%d y=%d a=%d: %s" % (p.addr, x, y, a, "; ".join(probs)), case_of(w, st))
+
+
+class C12(Monitor):
+    """forward: Simulation == execution (attributes and ledger), same state; router sims == fold of pair sims."""
+
+    def on_step(self, st):
+        w, acc = self.w, self.acc
+        op = st.op
+        if op["kind"] == "swap" and op["sem"].get("well_formed"):
+            sem = op["sem"]
+            p = sem["pair"]
+            sim = sim_of(st)
+            if sim is None:
+                return
+            acc.ev()
+            acc.cls("fwd", p.kind(), sem["entry"], "dir%d" % p.idx(sem["named"]), st.res["r"],
+                    "simfail" if sim[0] == "fail" else "simok", bucket(sem["named_amt"]))
+            if not st.ok:
+                return
+            acc.count("fwd_swaps_compared")
+            if sim[0] == "fail":
+                acc.violation("swap succeeded but the simulation of the same offer in the same state failed: %s" % sim[1][:100],
+                              case_of(w, st))
+                return
+            evs = [e for e in attr_events(st.res) if e.get("action") == "swap" and e.get("_contract_addr") == p.addr]
+            if len(evs) != 1:
+                acc.violation("no single swap event", case_of(w, st))
+                return
+            e = evs[0]
+            got = (int(e["return_amount"]), int(e["spread_amount"]), int(e["commission_amount"]))
+            probs = []
+            if got != sim:
+                probs.append("executed (return,spread,commission)=%s but simulated %s" % (got, sim))
+            other = p.other(sem["named"])
+            rcv = sem["to"] or op["actor"]
+            if rcv != p.addr:
+                d_r = st.post.get(rcv, other[1]) - st.pre.get(rcv, other[1])
+                if d_r != sim[0]:
+                    probs.append("receiver got %d, simulation said %d" % (d_r, sim[0]))
+                d_p = st.post.get(p.addr, other[1]) - st.pre.get(p.addr, other[1])
+                if d_p != -sim[0]:
+                    probs.append("pair paid %d, simulation said %d" % (-d_p, sim[0]))
+            if probs:
+                acc.violation("quote/execution mismatch on %s: %s" % (p.addr, "; ".join(probs)), case_of(w, st))
+            elif len(acc.samples) < acc.max_samples:
+                acc.sample({"pair_kind": p.kind(), "entry": sem["entry"], "offer": str(sem["named_amt"]),
+                            "simulated": [str(v) for v in sim], "executed": [str(v) for v in got]})
+
+
+class Router(Monitor):
+    """C11 (minimum_receive or full revert) and C13 (pure pass-through, delivers the quote). `which` selects."""
+
+    def __init__(self, world, acc, which):
+        Monitor.__init__(self, world, acc)
+        self.which = which
+
+    def on_step(self, st):
+        w, acc = self.w, self.acc
+        op = st.op
+        if op["kind"] not in ("route", "route_bad"):
+            return
+        self.interleave(st)
+        sem = op["sem"]
+        hops = sem["hops"]
+        actor = op["actor"]
+        rcp = sem["to"] or actor
+        amount = sem["amount"]
+        entry = sem["entry_asset"]
+        pre, post = st.pre, st.post
+        final = hops[-1][1] if hops else None
+        pairs = [w.pair_for(o, a) for o, a in hops]
+        special_rcp = rcp == w.router or rcp in [p.addr for p in w.pairs]
+        m = sem.get("min")
+        acc.ev()
+        q = st.quotes[0] if st.quotes else None
+        quote = int(q["v"]["amount"]) if (q and q["r"] == "ok") else None
+        mrel = "none" if m is None else ("?" if quote is None else ("lt" if m < quote else ("eq" if m == quote else "gt")))
+        acc.cls(self.which, len(hops), "n" if entry[0] == "n" else "t", st.res["r"], "m" + mrel,
+                "rcp_" + ("self" if rcp == actor else ("contract" if special_rcp else "other")),
+                sem.get("bad_mode", "chain"), "stale%s" % sem.get("stale", "-"),
+                "cycle" if (hops and final == hops[0][0]) else "open")
+        if not st.ok:
+            acc.count("routes_failed")
+            if not pre.same_as(post):
+                acc.violation("failed route changed state", case_of(w, st))
+            if self.which == "C11" and m is not None and quote is not None and m > quote:
+                acc.count("reverted_because_below_minimum")
+            return
+        acc.count("routes_ok_%dhop" % len(hops))
+        probs = []
+        if not hops:
+            acc.violation("empty route succeeded", case_of(w, st))
+            return
+        d_final = post.get(rcp, final[1]) - pre.get(rcp, final[1])
+        paid = 0
+        if rcp == actor and entry == final:
+            paid += amount
+        for (p_, offer_id, a_, ret, spread, comm) in known.swap_events(w, st):
+            if p_.addr == rcp and p_.assets[0][1] != offer_id and p_.assets[0] == final:
+                paid += ret
+            elif p_.addr == rcp and p_.assets[1][1] != offer_id and p_.assets[1] == final:
+                paid += ret
+        if self.which == "C11":
+            if m is not None:
+                acc.count("ok_with_minimum")
+                if d_final + paid < m:
+                    probs.append("recipient %s got %d (+%d paid by itself) of the final asset < minimum_receive %d"
+                                 % (rcp, d_final, paid, m))
+        else:
+            # C13 preconditions
+            distinct = all(pairs) and len(set(p.addr for p in pairs)) == len(pairs)
+            router_clean = all(pre.get(w.router, a[1]) == 0 for h in hops for a in h)
+            entry_ok = entry == hops[0][0]
+            n_dangling = self.dangling(hops)
+            if sem.get("bad_mode") in ("empty",) or n_dangling != 1:
+                probs.append("route with %d dangling outputs was accepted" % n_dangling)
+            if distinct and router_clean and entry_ok and not probs:
+                acc.count("c13_precondition_met")
+                if quote is None:
+                    probs.append("route executed but the router's simulation of it failed in the same state")
+                elif not special_rcp:
+                    if d_final + paid != quote:
+                        probs.append("recipient got %d (+%d own payment) but the router quoted %d" % (d_final, paid, quote))
+                for aid in sorted(set(a[1] for h in hops for a in h)):
+                    if post.get(w.router, aid) != 0 and not (rcp == w.router and aid == final[1]):
+                        probs.append("router keeps %d of %s" % (post.get(w.router, aid), aid))
+                if not (rcp == actor):
+                    if post.get(actor, entry[1]) - pre.get(actor, entry[1]) != -amount:
+                        probs.append("sender's input asset changed by %d, not -%d" % (
+                            post.get(actor, entry[1]) - pre.get(actor, entry[1]), amount))
+                elif entry != final:
+                    if post.get(actor, entry[1]) - pre.get(actor, entry[1]) != -amount:
+                        probs.append("sender's input asset changed by %d, not -%d" % (
+                            post.get(actor, entry[1]) - pre.get(actor, entry[1]), amount))
+                if not special_rcp and rcp != actor:
+                    for (acct, aid), (b, a_) in pre.diff(post).items():
+                        if acct == rcp and aid != final[1]:
+                            probs.append("recipient's %s changed (%d -> %d): only the final asset may reach it" % (aid, b, a_))
+        if probs:
+            acc.violation("route %s by %s: %s" % ([(o[1], a[1]) for o, a in hops], actor, "; ".join(probs[:4])),
+                          case_of(w, st, quote=str(quote)))
+        elif len(acc.samples) < acc.max_samples:
+            acc.sample({"hops": [[o[1], a[1]] for o, a in hops], "input": str(amount), "minimum_receive": None if m is None else str(m),
+                        "router_quote": None if quote is None else str(quote), "recipient": rcp,
+                        "recipient_gain": str(d_final)})
+
+    @staticmethod
+    def dangling(hops):
+        asks = {}
+        for o, a in hops:
+            asks.pop(o[1], None)
+            asks[a[1]] = True
+        return len(asks)
+
+
+class C10(Monitor):
+    """system level: a swap that succeeds honours max_spread / belief_price (guards derived from stale quotes)."""
+
+    def on_step(self, st):
+        w, acc = self.w, self.acc
+        op = st.op
+        if op["kind"] != "swap" or not op["sem"].get("well_formed"):
+            return
+        sem = op["sem"]
+        s, bp = sem.get("max_spread"), sem.get("belief")
+        if s is None:
+            return
+        self.interleave(st)
+        p = sem["pair"]
+        i = p.idx(sem["named"])
+        # decimals as the pair reports them now (they can be re-registered during a history)
+        do, dr = p.decimals[i], p.decimals[1 - i]
+        offer = sem["named_amt"]
+        guard_reject = (not st.ok) and err_text(st.res) == "Max spread assertion"
+        if st.ok:
+            evs = [e for e in attr_events(st.res) if e.get("action") == "swap" and e.get("_contract_addr") == p.addr]
+            if len(evs) != 1:
+                return
+            ret, spread = int(evs[0]["return_amount"]), int(evs[0]["spread_amount"])
+        else:
+            sim = sim_of(st)
+            if not sim or sim[0] == "fail":
+                acc.count("sys_other_failure")
+                return
+            ret, spread = sim[0], sim[1]
+        acc.ev()
+        v = guard_verdict(bp, s, offer, ret, spread, do, dr, "ok" if st.ok else ("guard" if guard_reject else "other"))
+        acc.cls("sys", "belief" if bp is not None else "spreadonly", "ok" if st.ok else ("guard" if guard_reject else "other"),
+                "do%s" % ("<" if do < dr else (">" if do > dr else "=")), "stale%s" % sem.get("stale", "-"), p.kind())
+        acc.count("sys_guarded_" + ("ok" if st.ok else ("guard_reject" if guard_reject else "other")))
+        if v:
+            acc.violation("swap on %s offer=%d return=%d spread=%d belief=%s max_spread=%s decimals=(%d,%d): %s"
+                          % (p.addr, offer, ret, spread, bp, s, do, dr, v), case_of(w, st))
+        elif len(acc.samples) < acc.max_samples:
+            acc.sample({"level": "system", "offer": str(offer), "return": str(ret), "spread": str(spread),
+                        "belief_price_atomics": None if bp is None else str(bp), "max_spread_atomics": str(s),
+                        "decimals": [do, dr], "outcome": st.res["r"], "stale_ops_since_quote": sem.get("stale")})
+
+
+def guard_verdict(bp, s, offer, ret, spread, do, dr, outcome):
+    """C10 oracle. bp, s: atomics (ints) or None; outcome: ok | guard | other. Returns None or a description."""
+    o1 = offer * 10 ** max(dr - do, 0)
+    r1 = ret * 10 ** max(do - dr, 0)
+    sp1 = spread * 10 ** max(do - dr, 0)
+    if s is None or outcome == "other":
+        return None
+    if bp is not None:
+        if bp == 0:
+            return None
+        # e = o1 / (bp/D) = o1*D/bp
+        if outcome == "ok":
+            # e > 1 and s < 1  =>  r1 > (e-1)(1 - s - 1e-18)
+            if o1 * D > bp and s < D:
+                # r1 > (o1*D/bp - 1) * (D - s - 1)/D   <=>  r1*bp*D > (o1*D - bp)*(D - s - 1)
+                if not (r1 * bp * D > (o1 * D - bp) * (D - s - 1)):
+                    return "succeeded although return' %d <= (offer'/p - 1)(1 - s - 1e-18)" % r1
+        elif outcome == "guard":
+            # rejected only if r1 < e(1-s)  <=>  r1*bp*D < o1*D*(D - s)
+            if not (r1 * bp * D < o1 * D * (D - s)):
+                return "rejected by the guard although return' %d >= (offer'/p)(1-s)" % r1
+        return None
+    tot = r1 + sp1
+    if tot == 0:
+        return None
+    if outcome == "ok":
+        # spread/(return+spread) < s + 1e-18
+        if not (sp1 * D < (s + 1) * tot):
+            return "succeeded although spread/(return+spread) = %d/%d >= s + 1e-18" % (sp1, tot)
+    elif outcome == "guard":
+        if not (sp1 * D > s * tot):
+            return "rejected by the guard although spread/(return+spread) = %d/%d <= s" % (sp1, tot)
+    return None
+
+
+def slippage_verdict(t, d0, d1, r0, r1, outcome):
+    """C15 oracle. t atomics or None; outcome ok | guard | other."""
+    if t is None:
+        return None
+    if t > D:
+        return "tolerance above 100% was not rejected" if outcome == "ok" else None
+    if outcome == "other" or d0 == 0 or d1 == 0 or r0 == 0 or r1 == 0:
+        return None
+    # (d0/d1)(1-t) < r0/r1 + 2e-18   <=>  d0*(D-t)*r1 < (r0*D + 2*r1)*d1   (scaled by d1*r1*D)
+    a_ok = d0 * (D - t) * r1 < (r0 * D + 2 * r1) * d1
+    b_ok = d1 * (D - t) * r0 < (r1 * D + 2 * r0) * d0
+    if outcome == "ok":
+        if not (a_ok and b_ok):
+            return "succeeded outside the tolerance"
+    elif outcome == "guard":
+        # never rejected when both (d_i/d_j)(1-t) <= r_i/r_j - 1e-18
+        a_in = d0 * (D - t) * r1 <= (r0 * D - r1) * d1
+        b_in = d1 * (D - t) * r0 <= (r1 * D - r0) * d0
+        if a_in and b_in:
+            return "rejected by the guard although well inside the tolerance"
+    return None
+
+
+class C15(Monitor):
+    """system level: provisions with a slippage tolerance after interleaved foreign swaps."""
+
+    def on_step(self, st):
+        w, acc = self.w, self.acc
+        op = st.op
+        if op["kind"] != "provide":
+            return
+        sem = op["sem"]
+        t = sem.get("slippage")
+        if t is None:
+            return
+        self.interleave(st)
+        p = sem["pair"]
+        r0, r1, S = pair_state(p, st.pre)
+        d0, d1 = sem["amounts"]
+        guard = (not st.ok) and err_text(st.res) == "Max slippage assertion"
+        outcome = "ok" if st.ok else ("guard" if guard else "other")
+        acc.ev()
+        acc.cls("sys", p.kind(), outcome, "t" + bucket(t), "stale%s" % sem.get("stale", "-"), "S0" if S == 0 else "S+")
+        acc.count("sys_tolerance_" + outcome)
+        v = slippage_verdict(t, d0, d1, r0, r1, outcome)
+        if v:
+            acc.violation("provision (%d,%d) into (%d,%d) with tolerance %d/1e18 on %s: %s" % (d0, d1, r0, r1, t, p.addr, v),
+                          case_of(w, st))
+        elif len(acc.samples) < acc.max_samples:
+            acc.sample({"level": "system", "deposits": [str(d0), str(d1)], "reserves_before": [str(r0), str(r1)],
+                        "tolerance_atomics": str(t), "outcome": outcome})
+
+
+class C20(Monitor):
+    """liquidity can always be withdrawn: entitled withdrawals must succeed (one-step bounded progress)."""
+
+    def on_step(self, st):
+        w, acc = self.w, self.acc
+        op = st.op
+        if op["kind"] != "withdraw":
+            return
+        sem = op["sem"]
+        p, a, holder = sem["pair"], sem["amount"], op["actor"]
+        r0, r1, S = pair_state(p, st.pre)
+        bal = st.pre.get(holder, p.lp)
+        if a < 1 or a > bal or S == 0:
+            return
+        acc.ev()
+        entitled = all(r * a * D >= (r + 2 * D) * S for r in (r0, r1))  # r*a/S >= r/D + 2
+        hist = sem.get("after", "-")
+        acc.cls(p.kind(), "entitled" if entitled else "below", st.res["r"], "r" + bucket(max(r0, r1)), "S" + bucket(S),
+                "full" if a == bal else "part", hist)
+        if entitled:
+            acc.count("entitled_attempts")
+            if not st.ok:
+                acc.violation("entitled withdrawal of %d/%d LP (reserves %d,%d) by %s failed: %s"
+                              % (a, S, r0, r1, holder, err_text(st.res)[:160]), case_of(w, st))
+            elif len(acc.samples) < acc.max_samples:
+                acc.sample({"pair_kind": p.kind(), "reserves": [str(r0), str(r1)], "supply": str(S), "burn": str(a),
+                            "holder": holder, "outcome": "ok"})
+        else:
+            acc.count("below_threshold_" + st.res["r"])
